@@ -38,6 +38,9 @@ def _build(name_i, thr_i):
     genus = Taxon(key='G', name='Genus ' + TEXTS[name_i], rank='genus', genome_set=gset, distance_threshold=THRS[thr_i], ncbi_id=561, report=True)
     hidden = Taxon(key='H', name='hidden ' + TEXTS[name_i], rank=None, genome_set=gset, distance_threshold=0.25, parent=genus, report=False)
     species = Taxon(key='S', name=TEXTS[name_i], rank='species', genome_set=gset, distance_threshold=THRS[(thr_i + 1) % len(THRS)], parent=hidden, ncbi_id=None, report=True)
+    # a root-level taxon that is not reportable and has no reportable ancestor: predicted, but nothing to report
+    lone = Taxon(key='X', name='unreportable root ' + TEXTS[name_i], rank='clade', genome_set=gset, distance_threshold=0.9, report=False)
+    s.add(lone)
     gens = []
     for i, t in enumerate((species, hidden, genus)):
         g = Genome(key=f'k{i}' + TEXTS[name_i][:3], description=f'desc {i} ' + TEXTS[(name_i + i) % len(TEXTS)], ncbi_db='assembly', ncbi_id=10 + i, genbank_acc=f'GCA_{i}', refseq_acc=None if i else 'GCF_0')
@@ -45,7 +48,7 @@ def _build(name_i, thr_i):
         s.add(ag)
         gens.append(ag)
     s.commit()
-    return s, gset, (species, hidden, genus), gens
+    return s, gset, (species, hidden, genus, lone), gens
 
 
 _CACHE = {}
@@ -66,8 +69,9 @@ for _n in sorted({P['name_i'], 1} if 'name_i' in P else set(range(len(TEXTS)))):
 
 def make_item(w, label_i, pred, nxt, dist_i, with_file, strict_fail):
     s, gset, taxa, gens = w
-    species, hidden, genus = taxa
-    predicted = [None, species, hidden, genus][pred]            # hidden is not reportable: the user-facing taxon is its ancestor
+    species, hidden, genus, lone = taxa
+    # hidden is not reportable: the user-facing taxon is its ancestor; lone is not reportable and has no ancestor at all
+    predicted = [None, species, hidden, genus, lone][pred]
     next_taxon = [None, species, genus][nxt]
     d = DISTS[dist_i]
     closest = GenomeMatch(genome=gens[dist_i % 3], distance=d, matched_taxon=predicted)
@@ -154,7 +158,7 @@ def _check(name_i, thr_i, n, specs):
 
 def _run1(name_i, label_i, pred, nxt, dist_i, with_file, fail):
     nc = fork_int(name_i, 0, len(TEXTS) - 1)
-    sp = (fork_int(label_i, 0, len(TEXTS) - 1), fork_int(pred, 0, 3), fork_int(nxt, 0, 2), fork_int(dist_i, 0, len(DISTS) - 1), bool(with_file), bool(fail))
+    sp = (fork_int(label_i, 0, len(TEXTS) - 1), fork_int(pred, 0, 4), fork_int(nxt, 0, 2), fork_int(dist_i, 0, len(DISTS) - 1), bool(with_file), bool(fail))
     with NoTracing():
         return _check(nc, (nc + sp[3]) % len(THRS), 1, [sp])
 
@@ -162,7 +166,7 @@ def _run1(name_i, label_i, pred, nxt, dist_i, with_file, fail):
 def _c11_one(name_i: int, l0: int, p0: int, x0: int, d0: int, f0: bool, e0: bool) -> bool:
     """
     One result item: every combination of presence / absence of its optional parts and of the pooled text and float values.
-    pre: 0 <= name_i < len(TEXTS) and 0 <= l0 < len(TEXTS) and 0 <= p0 <= 3 and 0 <= x0 <= 2 and 0 <= d0 < len(DISTS)
+    pre: 0 <= name_i < len(TEXTS) and 0 <= l0 < len(TEXTS) and 0 <= p0 <= 4 and 0 <= x0 <= 2 and 0 <= d0 < len(DISTS)
     pre: ('name_i' not in P or name_i == P['name_i']) and ('maxdist' not in P or d0 < P['maxdist'])
     post: _
     """
@@ -170,13 +174,13 @@ def _c11_one(name_i: int, l0: int, p0: int, x0: int, d0: int, f0: bool, e0: bool
 
 
 def explain_c11_one(name_i, l0, p0, x0, d0, f0, e0):
-    return {'names': TEXTS[name_i], 'label': TEXTS[l0], 'predicted(0 none,1 species,2 hidden,3 genus)': p0, 'next(0 none,1 species,2 genus)': x0, 'dist': repr(DISTS[d0]), 'file': f0,
+    return {'names': TEXTS[name_i], 'label': TEXTS[l0], 'predicted(0 none,1 species,2 hidden,3 genus,4 unreportable root)': p0, 'next(0 none,1 species,2 genus)': x0, 'dist': repr(DISTS[d0]), 'file': f0,
             'failed_strict': e0, 'why': _run1(name_i, l0, p0, x0, d0, f0, e0)[1]}
 
 
 def _run2(n, p0, x0, e0, p1, x1, e1, p2, x2, e2):
     nn = fork_int(n, 0, 3)
-    sp = [(1 + k, fork_int(p, 0, 3), fork_int(x, 0, 2), k, k % 2 == 0, bool(e)) for k, (p, x, e) in enumerate(((p0, x0, e0), (p1, x1, e1), (p2, x2, e2)))]
+    sp = [(1 + k, fork_int(p, 0, 4), fork_int(x, 0, 2), k, k % 2 == 0, bool(e)) for k, (p, x, e) in enumerate(((p0, x0, e0), (p1, x1, e1), (p2, x2, e2)))]
     with NoTracing():
         return _check(1, 0, nn, sp) if nn else _check(1, 0, 0, sp)
 
@@ -184,7 +188,7 @@ def _run2(n, p0, x0, e0, p1, x1, e1, p2, x2, e2):
 def _c11_many(n: int, p0: int, x0: int, e0: bool, p1: int, x1: int, e1: bool, p2: int, x2: int, e2: bool) -> bool:
     """
     0..3 result items with every pattern of present / absent parts: one row / item per query, in order.
-    pre: 0 <= n <= int(P.get('maxitems', 2)) and all(0 <= p <= 3 for p in (p0, p1, p2)) and all(0 <= x <= 2 for x in (x0, x1, x2)) and ('p0' not in P or p0 == P['p0'])
+    pre: 0 <= n <= int(P.get('maxitems', 2)) and all(0 <= p <= 4 for p in (p0, p1, p2)) and all(0 <= x <= 2 for x in (x0, x1, x2)) and ('p0' not in P or p0 == P['p0'])
     pre: (n > 0 or (p0 == 0 and x0 == 0 and not e0)) and (n > 1 or (p1 == 0 and x1 == 0 and not e1)) and (n > 2 or (p2 == 0 and x2 == 0 and not e2))
     post: _
     """
